@@ -12,7 +12,8 @@ from typing import Any, Final, Literal, Self
 
 from pymap.concurrent import Event, ReadWriteLock
 from pymap.context import subsystem
-from pymap.exceptions import MailboxHasChildren, NotSupportedError
+from pymap.exceptions import MailboxError, MailboxHasChildren, \
+    NotSupportedError
 from pymap.flags import FlagOp
 from pymap.interfaces.message import CachedMessage
 from pymap.listtree import ListTree
@@ -21,6 +22,7 @@ from pymap.message import BaseMessage, BaseLoadedMessage
 from pymap.mime import MessageContent
 from pymap.parsing.message import AppendMessage
 from pymap.parsing.specials import ObjectId, FetchRequirement
+from pymap.parsing.response import ResponseCode
 from pymap.parsing.specials.flag import Flag, Seen
 from pymap.selected import SelectedSet, SelectedMailbox
 
@@ -545,6 +547,9 @@ class MailboxSet(MailboxSetInterface[MailboxData]):
             self._layout.add_folder(name, self.delimiter)
         except FileExistsError as exc:
             raise ValueError(name) from exc
+        except FileNotFoundError as exc:
+            raise MailboxError(name, b'Invalid mailbox name.',
+                               ResponseCode.of(b'CANNOT')) from exc
         path = self._layout.get_path(name, self.delimiter)
         async with UidList.with_init(path) as uidl:
             global_uid = uidl.global_uid
@@ -563,6 +568,11 @@ class MailboxSet(MailboxSetInterface[MailboxData]):
     async def rename_mailbox(self, before: str, after: str) -> None:
         if before == 'INBOX':
             raise NotSupportedError()  # TODO
+        try:
+            self._layout.get_path(after, self.delimiter)
+        except FileNotFoundError as exc:
+            raise MailboxError(after, b'Invalid mailbox name.',
+                               ResponseCode.of(b'CANNOT')) from exc
         try:
             self._layout.rename_folder(before, after, self.delimiter)
         except FileNotFoundError as exc:
